@@ -280,6 +280,19 @@ def resolve_meta(spec, shared: dict):
     raise ValueError(spec)
 
 
+def stored_rows(root: str, path: str, st: dict, decoded: int) -> int:
+    """Number of examples a shard file stores: for npz the longest
+    per-attribute column (a rejected write must leave no row in any column),
+    otherwise what decodes."""
+    if st["fmt"] != "npz":
+        return decoded
+    try:
+        with np.load(os.path.join(root, path), allow_pickle=False) as z:
+            return max([decoded] + [len(z[k]) for k in z.files])
+    except Exception:  # pylint: disable=broad-except
+        return decoded
+
+
 def bad_values(attrs: list, w: dict, fmt: str) -> dict:
     """A deliberately wrong example (write-time validation, C18/C04)."""
     vals = values_for(attrs, w["id"], fmt)
@@ -287,6 +300,13 @@ def bad_values(attrs: list, w: dict, fmt: str) -> dict:
     name = a["name"]
     shape = tuple(a["shape"])
     kind = w["bad"]
+    if kind == "extra_npz_tfrec":
+        # a surplus key next to a complete, valid example
+        kind = "extra" if fmt in ("npz", "tfrec") else "shape"
+    if kind == "misspelt":
+        # right number of keys, one of them under a wrong name
+        vals[name + "_"] = vals.pop(name)
+        return vals
     if a["dtype"] in ("bytes", "str"):
         if kind == "missing":
             del vals[name]
